@@ -287,8 +287,7 @@ def success_edges_of(b, site):
     return out
 
 
-def r5_failure_links_nothing(ctx, P):
-    R = "C05.R5"
+def r5_failure_links_nothing(ctx, P, R="C05.R5"):
     ctx.rule(R, "a failed chunk creation links nothing: next.set, self.chunk.set(new) and the header write are dominated by "
                 "the success edge of the creating call")
     n = 0
